@@ -17,7 +17,7 @@ From Coq Require Import List Arith Bool ZArith Lia.
 From PV Require Import Base.Exn Base.Values Base.Ann Model.CheckerCfg Model.Checker Model.GenericInstance
   Model.TypeVarShapeCfg Spec.Conforms Spec.TypeVarSpec Gen.CheckerTables Gen.TypeVarShape
   Proofs.CheckerGood Proofs.CheckerRefine Proofs.CheckerSpec Proofs.CheckerTop
-  Proofs.TypeVarFrame Proofs.TypeVarTC Proofs.TypeVarCall Proofs.TypeVarHistory Proofs.TypeVarSpecLink.
+  Proofs.TypeVarFrame Proofs.TypeVarTC Proofs.TypeVarCall Proofs.TypeVarHistory Proofs.TypeVarSpecLink Proofs.TypeVarUnion.
 Import ListNotations.
 
 Definition cfg := Gen.CheckerTables.checker_cfg.
@@ -140,6 +140,25 @@ Proof.
   unfold tv_admits in Ha. apply andb_true_iff in Ha as [_ Ha]. now rewrite Hb in Ha.
 Qed.
 Print Assumptions C07_bound.
+
+(* Optional[...] / Union[...] of plain classes around one other alternative g (Optional[List[T]],
+   Union[Dict[str, T], int]): when no plain class takes the value the Union does exactly what g does - same
+   verdict, same exception, and the bindings g makes stay in the table of the call (so a later unrelated
+   value for the same TypeVar is rejected by the theorems above).  This is the part of the wider oracle
+   vocabulary tv_vocab_x that is proved; the remaining cases of that shape (a plain class also takes the
+   value, or g rejects the value structurally after some TypeVar checks) have no oracle (union_clear). *)
+Theorem C07_union_generic_member : forall ctx hook sp pre g post v tv,
+  is_typevar g = false -> plain_none v pre -> plain_none v post ->
+  is_inst cfg ctx hook (AUnion sp (pre ++ g :: post)) v tv = is_inst cfg ctx hook g v tv.
+Proof. intros ctx hook. exact (union_generic_member cfg good ctx hook). Qed.
+Print Assumptions C07_union_generic_member.
+
+Theorem C07_union_generic_member_matches : forall ctx hook sp pre g post v tv,
+  is_typevar g = false -> tv_vocab g = true -> plain_none v pre -> plain_none v post ->
+  EI cfg ctx hook g v = Ok true ->
+  is_inst cfg ctx hook (AUnion sp (pre ++ g :: post)) v tv = run_tc hook (matched false g v) tv.
+Proof. intros ctx hook. exact (union_generic_member_run cfg good Hub ctx hook). Qed.
+Print Assumptions C07_union_generic_member_matches.
 
 (* ---- against the executable specification the harness evaluates (Spec/TypeVarSpec.v) -----------------
    positions whose TypeVar-free part is in the vocabulary of C01/C02; one TypeVar object per id *)
@@ -316,6 +335,13 @@ Proof. exact (C07_same_class_ok no_ctx ex_sig ex_args (VInt 4) _ ex_well_formed 
 Example ex_mismatch : exists e, call no_ctx ex_sig [VInt 1; VList [VInt 2; VStr [120]]; VDict []] VNone = Raise e
                                 /\ derives e PTypeVarMismatchC = true.
 Proof. vm_compute. eauto. Qed.
+(* def optional_nested(a: Optional[List[T]], b: T): a=[1], b='x' *)
+Example ex_optional_nested :
+  call_spec no_ctx xenv_none [AUnion UTyping [AGeneric SpTyping TList [ATypeVar tvS]; ACls CNoneType]; ATypeVar tvS; ANone]
+            [VList [VInt 1]; VStr [120]; VNone] = MustNot
+  /\ exists e, call no_ctx {| ms_params := [AUnion UTyping [AGeneric SpTyping TList [ATypeVar tvS]; ACls CNoneType]; ATypeVar tvS]; ms_ret := ANone |}
+                     [VList [VInt 1]; VStr [120]] VNone = Raise e /\ derives e PTypeVarMismatchC = true.
+Proof. split; [vm_compute; reflexivity|vm_compute; eauto]. Qed.
 Example ex_instance : well_formed_inst [0; 1] [ACls CInt; AGeneric SpTyping TList [ACls CStr]]
                       /\ inst_method [0; 1] {| ms_params := [ATypeVar {| tv_id := 1; tv_constraints := []; tv_bound := None; tv_contravariant := false |}; ACls CInt];
                                                ms_ret := ATypeVar {| tv_id := 0; tv_constraints := []; tv_bound := None; tv_contravariant := false |} |} = true.
